@@ -68,6 +68,9 @@ func kitConfig(o kitCfgOpts) *kitCfg {
 		IdToken:            &oidcv1.TokenConfig{Header: vn.StringIn("cfg-id-header", sb, alphaLower), Preamble: vn.StringIn("cfg-id-preamble", sb, alphaID)},
 	}
 	vn.Assume(len(cfg.IdToken.Header) > 0)
+	// configuration loading has already parsed the endpoints (C17)
+	_, perr := url.Parse(cfg.TokenUri)
+	vn.Assume(perr == nil)
 	if o.accessToken {
 		cfg.AccessToken = &oidcv1.TokenConfig{Header: vn.StringIn("cfg-at-header", sb, alphaLower), Preamble: vn.StringIn("cfg-at-preamble", sb, alphaID)}
 		vn.Assume(vn.And(len(cfg.AccessToken.Header) > 0, cfg.AccessToken.Header != cfg.IdToken.Header))
@@ -298,6 +301,7 @@ type symIdP struct {
 	lastBody kitBody
 	answer   int // what the last request was answered with (answerKind), -1 before any request
 	answerKind int
+	idExp      time.Time
 	status     int
 	bodyText   string
 }
@@ -358,6 +362,13 @@ func (p *symIdP) body() string {
 	b := kitBody{kind: 3, idKind: 1, ttKind: 1, tokenType: "Bearer"}
 	wellFormed, nonceKind, naud, sig := true, 1, 1, true
 	nonce, aud0 := p.nonce, p.clientID
+	if p.honest {
+		// a compliant provider: audience as a string or a two-element array containing the client
+		// id, token_type any capitalisation of "bearer"
+		naud = int(vn.Int("idp-naud", 1, 2))
+		b.tokenType = vn.String("idp-token-type", 6)
+		vn.Assume(strings.EqualFold(b.tokenType, "Bearer"))
+	}
 	if !p.honest {
 		b.kind = int(vn.Int("idp-body-kind", 0, 3))
 		b.idKind = int(vn.Int("idp-id-token-kind", 0, 5))
@@ -371,7 +382,8 @@ func (p *symIdP) body() string {
 		b.ttKind = int(vn.Int("idp-token-type-kind", 0, 5))
 	}
 	doc := vn.NewJSON("idp-body", b.kind)
-	b.idToken = vn.JWT("idp-id", wellFormed, nonceKind, nonce, naud, aud0, vn.StringIn("idp-aud1", 2, alphaID), vn.Time("idp-exp"), sig)
+	p.idExp = vn.Time("idp-exp")
+	b.idToken = vn.JWT("idp-id", wellFormed, nonceKind, nonce, naud, aud0, vn.StringIn("idp-aud1", 2, alphaID), p.idExp, sig)
 	vn.JSONStr(doc, "id_token", b.idKind, b.idToken)
 	vn.JSONStr(doc, "token_type", b.ttKind, b.tokenType)
 	b.access = vn.StringIn("idp-access", 2, alphaID)
@@ -463,14 +475,13 @@ func kitHandler(cfg *oidcv1.OIDCConfig, store *symStore, faults bool, honestIdP 
 		env.jwks.failNext = vn.Bool("fault-jwks")
 	}
 	env.gen = &symGen{}
-	now := env.now
 	env.h = &oidcHandler{
 		log:        internal.Logger(internal.Authz),
 		config:     cfg,
 		jwks:       env.jwks,
 		sessions:   &kitFactory{store: store},
 		sessionGen: env.gen,
-		clock:      oidc.Clock{NowFn: func() time.Time { return now }},
+		clock:      oidc.Clock{NowFn: func() time.Time { return env.now }},
 		httpClient: &http.Client{Transport: env.idp},
 	}
 	return env
